@@ -131,12 +131,12 @@ def tolerant_ok(pid_list=("C01", "C03", "C14")):
     return False
 
 
-def run(ctx, regimes_quick, regimes_thorough, rule, assumptions):
+def run(ctx, regimes_quick, regimes_thorough, rule, assumptions, extra_bins=(), extra=None):
     pid = ctx.pid
     vlib.prove(ctx, [f"KrillModel.Props.{pid}"])
     private_kmodel(ctx)
     found = False
-    if vlib.build_harness(ctx, ["system"]):
+    if vlib.build_harness(ctx, ["system"] + list(extra_bins)):
         regimes = regimes_quick if ctx.tier == "quick" else regimes_thorough
         strict = f"sysobjects {pid}"
         tol = f"sysobjects {pid} tolerant" if tolerant_ok() else strict
@@ -154,6 +154,9 @@ def run(ctx, regimes_quick, regimes_thorough, rule, assumptions):
             for tr in traces:
                 for f in Path(tr).parent.glob(Path(tr).name + "*"):
                     f.unlink(missing_ok=True)
+        # 3. further streams of this property
+        if extra is not None:
+            found |= bool(extra(ctx))
     else:
         ctx.failed_obligations.append("harness-build")
     vlib.obligations_broken(ctx, found)
